@@ -26,18 +26,23 @@
 (*                                                                            *)
 (* What is the sender's choice and therefore free: where a message is         *)
 (* fragmented, the masking keys, the compressed octets, control frames        *)
-(* between any two frames.                                                    *)
+(* between any two frames, and - RFC 7692 section 6: "an endpoint MAY choose  *)
+(* per message whether to compress" - whether a message for which the         *)
+(* extension is in force is sent compressed.  RSV1 on the first frame says    *)
+(* which, and the payload is judged accordingly.                              *)
 EXTENDS Integers, Sequences, FiniteSets
 
 VARIABLES
   role,   \* "client" | "server": who wrote the stream
-  msgs,   \* what its application wrote: sequence of [t, size, z, nl] (opcode 1|2, bytes, compressed?,
+  msgs,   \* what its application wrote: sequence of [t, size, z, nl] (opcode 1|2, bytes,
+          \* z: permessage-deflate negotiated and enabled for this message, i.e. the sender MAY compress it,
           \* nl: one optional trailing LF - a JSON text written by an encoder that may or may not end the line)
   i,      \* index of the message the next data frame belongs to
   open,   \* a fragmented message is in progress
-  acc     \* payload octets of the open message so far
+  acc,    \* payload octets of the open message so far
+  cz      \* the open message is compressed (RSV1 was set on its first frame)
 
-wvars == <<role, msgs, i, open, acc>>
+wvars == <<role, msgs, i, open, acc, cz>>
 
 Roles   == {"client", "server"}
 OpCont  == 0
@@ -66,10 +71,10 @@ Every(f) == /\ f.r23 = 0                     \* no extension negotiated defines 
 Lens(m)   == IF m.nl THEN {m.size, m.size + 1} ELSE {m.size}
 MaxLen(m) == IF m.nl THEN m.size + 1 ELSE m.size
 
-\* the message is complete with this frame; total = payload octets over all its frames
-Complete(f, total) ==
+\* the message is complete with this frame; total = payload octets over all its frames; c: it is compressed
+Complete(f, total, c) ==
   /\ f.ieq
-  /\ IF msgs[i].z
+  /\ IF c
      THEN /\ f.ilen \in Lens(msgs[i])
           \* RFC 7692 7.2.1 step 3: the trailing 00 00 ff ff is removed, "after this step the last
           \* octet of the compressed message contains (possibly part of) the DEFLATE header bits
@@ -83,10 +88,10 @@ CanDataFirst(f) ==
   /\ ~open                                   \* 5.4: fragments of messages are not interleaved
   /\ i <= Len(msgs)
   /\ f.op = msgs[i].t
-  /\ f.r1 = Bit(msgs[i].z)                   \* RFC 7692 6: RSV1 on the first frame of a compressed message
+  /\ f.r1 = 1 => msgs[i].z                  \* RFC 7692 6: RSV1 marks a compressed message - only with the extension
   /\ f.n = 1
-  /\ ~msgs[i].z => f.len <= MaxLen(msgs[i])
-  /\ f.fin = 1 => Complete(f, f.len)
+  /\ f.r1 = 0 => f.len <= MaxLen(msgs[i])
+  /\ f.fin = 1 => Complete(f, f.len, f.r1 = 1)
 
 CanContinuation(f) ==
   /\ Every(f)
@@ -94,8 +99,8 @@ CanContinuation(f) ==
   /\ open
   /\ f.r1 = 0                                \* RFC 7692 6.1: RSV1 only on the first frame
   /\ f.n > 1 => f.fin = 0
-  /\ ~msgs[i].z => acc + f.n * f.len <= MaxLen(msgs[i])
-  /\ f.fin = 1 => Complete(f, acc + f.len)
+  /\ ~cz => acc + f.n * f.len <= MaxLen(msgs[i])
+  /\ f.fin = 1 => Complete(f, acc + f.len, cz)
 
 CanControl(f) ==
   /\ Every(f)
@@ -109,19 +114,19 @@ Accepts(f) == CanDataFirst(f) \/ CanContinuation(f) \/ CanControl(f)
 CanEnd     == ~open /\ i = Len(msgs) + 1     \* every message was sent, completely
 
 \* ------------------------------------------------------------------- actions
-Advance(f, total) ==
-  /\ IF f.fin = 1 THEN i' = i + 1 /\ open' = FALSE /\ acc' = 0
-                  ELSE i' = i /\ open' = TRUE /\ acc' = total
+Advance(f, total, c) ==
+  /\ IF f.fin = 1 THEN i' = i + 1 /\ open' = FALSE /\ acc' = 0 /\ cz' = FALSE
+                  ELSE i' = i /\ open' = TRUE /\ acc' = total /\ cz' = c
   /\ UNCHANGED <<role, msgs>>
 
-DataFirst(f)    == CanDataFirst(f)    /\ Advance(f, f.len)
-Continuation(f) == CanContinuation(f) /\ Advance(f, acc + f.n * f.len)
+DataFirst(f)    == CanDataFirst(f)    /\ Advance(f, f.len, f.r1 = 1)
+Continuation(f) == CanContinuation(f) /\ Advance(f, acc + f.n * f.len, cz)
 Control(f)      == CanControl(f)      /\ UNCHANGED wvars
 Frame(f)        == DataFirst(f) \/ Continuation(f) \/ Control(f)
 
-Start(r, ms) == role' = r /\ msgs' = ms /\ i' = 1 /\ open' = FALSE /\ acc' = 0
+Start(r, ms) == role' = r /\ msgs' = ms /\ i' = 1 /\ open' = FALSE /\ acc' = 0 /\ cz' = FALSE
 
-WInit == role \in Roles /\ msgs = <<>> /\ i = 1 /\ open = FALSE /\ acc = 0
+WInit == role \in Roles /\ msgs = <<>> /\ i = 1 /\ open = FALSE /\ acc = 0 /\ cz = FALSE
 
 TypeOk == /\ role \in Roles
           /\ i \in 1..(Len(msgs) + 1)
@@ -129,12 +134,14 @@ TypeOk == /\ role \in Roles
           /\ acc >= 0
           /\ open => i <= Len(msgs)
           /\ ~open => acc = 0
+          /\ cz \in BOOLEAN
+          /\ cz => (open /\ msgs[i].z)
 
 \* ------------------------------------------------- diagnostics for a rejection
 \* names of the rules a rejected frame breaks (reported with the offending record)
-WhyIncomplete(f, total) ==
+WhyIncomplete(f, total, c) ==
      (IF ~f.ieq THEN {"reassembled payload is not the message"} ELSE {})
-  \cup (IF msgs[i].z
+  \cup (IF c
         THEN (IF f.ilen \notin Lens(msgs[i]) THEN {"inflated length is not the message's"} ELSE {})
              \cup (IF f.last \notin 0..254 THEN {"deflate tail 00 00 ff ff not removed"} ELSE {})
         ELSE (IF total \notin Lens(msgs[i]) THEN {"final frame before the whole message was sent"} ELSE {}))
@@ -149,14 +156,14 @@ Why(f) ==
         ELSE IF f.op = OpCont
         THEN IF ~open THEN {"continuation without an open message"}
              ELSE (IF f.r1 # 0 THEN {"rsv1 on continuation frame"} ELSE {})
-                  \cup (IF ~msgs[i].z /\ acc + f.n * f.len > MaxLen(msgs[i]) THEN {"more payload than the message"} ELSE {})
-                  \cup (IF f.fin = 1 THEN WhyIncomplete(f, acc + f.len) ELSE {})
+                  \cup (IF ~cz /\ acc + f.n * f.len > MaxLen(msgs[i]) THEN {"more payload than the message"} ELSE {})
+                  \cup (IF f.fin = 1 THEN WhyIncomplete(f, acc + f.len, cz) ELSE {})
         ELSE IF f.op \in DataOps
         THEN IF open THEN {"new message before the final frame of the previous one"}
              ELSE IF i > Len(msgs) THEN {"message the application never wrote"}
              ELSE (IF f.op # msgs[i].t THEN {"wrong message type"} ELSE {})
-                  \cup (IF f.r1 # Bit(msgs[i].z) THEN {IF msgs[i].z THEN "rsv1 missing on compressed message" ELSE "rsv1 on uncompressed message"} ELSE {})
-                  \cup (IF ~msgs[i].z /\ f.len > MaxLen(msgs[i]) THEN {"more payload than the message"} ELSE {})
-                  \cup (IF f.fin = 1 THEN WhyIncomplete(f, f.len) ELSE {})
+                  \cup (IF f.r1 = 1 /\ ~msgs[i].z THEN {"rsv1 on a message without permessage-deflate"} ELSE {})
+                  \cup (IF f.r1 = 0 /\ f.len > MaxLen(msgs[i]) THEN {"more payload than the message"} ELSE {})
+                  \cup (IF f.fin = 1 THEN WhyIncomplete(f, f.len, f.r1 = 1) ELSE {})
         ELSE {"reserved opcode"})
 =============================================================================
